@@ -24,7 +24,7 @@ func init() {
 			"inside a macro the includer's variables are the macro's parameters",
 			"error texts are not compared, only error-vs-output",
 		},
-		quick: 1728 + 60, thorough: 1728 + 60 + 6000, minQuick: 800, minThorough: 2500,
+		quick: 1728 + 60 + 4000, thorough: 1728 + 60 + 60000, minQuick: 2500, minThorough: 15000,
 	}})
 }
 
